@@ -65,7 +65,7 @@ def check_xy(ctx, n_cases):
         n = rng.randrange(1, 9)
         shape = rng.choice(["dense", "sparse", "scalar"])
         X = [[rng.randrange(0, 9) for _ in range(3)] if shape == "dense" else ({k: rng.randrange(1, 9) for k in rng.sample("abc", rng.randrange(1, 4))} if shape == "sparse" else rng.randrange(0, 9)) for _ in range(n)]
-        lk = rng.choice(["int", "str", "list1", "multi", "multi-int", "real", "cat"])
+        lk = rng.choice(["int", "str", "list1", "multi", "multi-int", "real", "cat", "bigint", "frac"])
         if lk == "int": Y = [rng.randrange(0, 4) for _ in range(n)]; lt = rng.choice(["c", "c", None, "r"])
         elif lk == "str": Y = [rng.choice(["p", "q", "rr", "10", "11"]) for _ in range(n)]; lt = rng.choice(["c", None])
         elif lk == "list1": Y = [[rng.choice(["p", "q", "rr"])] for _ in range(n)]; lt = "c"
@@ -79,9 +79,11 @@ def check_xy(ctx, n_cases):
             lt = "c"
         elif lk == "multi": Y = [rng.sample(["10", "11", "p", "q"], rng.randrange(1, 4)) for _ in range(n)]; lt = "m"
         elif lk == "multi-int": Y = [rng.sample([1, 2, 3, 4], rng.randrange(1, 4)) for _ in range(n)]; lt = "m"
+        elif lk == "bigint": Y = [rng.choice([2**53 + 1, 1700000000123456789, 10**18 + 3, 2**53 + 3, -(2**60) - 1]) + rng.randrange(0, 3) for _ in range(n)]; lt = rng.choice(["r", None])      # regression labels a double cannot hold (nanosecond time stamps, counters)
+        elif lk == "frac": Y = [Fr(rng.randrange(1, 9), rng.choice([3, 7, 9])) for _ in range(n)]; lt = "r"      # exact rational labels
         else: Y = [rng.choice([0.5, 1.5, 2, 3.25]) for _ in range(n)]; lt = rng.choice(["r", None])
         eff = lt or ("r" if isinstance(Y[0], (int, float)) else "c")
-        case = dict(X=X, Y=Y, label_type=lt)
+        case = dict(X=X, Y=[str(y) for y in Y] if lk == "frac" else Y, label_type=lt)
         ctx.count("xy:" + lk + ":" + str(lt), repr(case), n >= 2 and len(set(map(repr, Y))) >= 2)
         try:
             got = read_env(make_env(rng, (X, Y, lt), case, via="constructor" if lk == "cat" else None))      # (Environments finalises categorical actions to one-hot codes: C10)
@@ -89,7 +91,7 @@ def check_xy(ctx, n_cases):
             ctx.fail(["xy", "raises", errname(e), eff], "SupervisedSimulation(X,Y,%r) raised %s: %s on %s" % (lt, errname(e), str(e)[:100], case), case); continue
         acts, rew = expect(eff, Y)
         if lk == "cat": acts = list(Y[0].levels)      # a categorical label offers every declared level, in the order the first example declares them
-        probe = [0, 1, 2.5] if eff == "r" else acts
+        probe = ([0, 1, 2.5] + ([v for y in Y for v in (y, y + 1, y - 1)] if lk in ("bigint", "frac") else [])) if eff == "r" else acts      # near a big label the reward still tells y from y+1
         ok = len(got) == n
         for g, x, y in zip(got, X, Y):
             if not ok: break
@@ -121,7 +123,7 @@ def check_xy(ctx, n_cases):
         elif eff == "m":
             rank = {a: i for i, a in enumerate(acts)}
             reqs.append((14, [2, [[rank[a] for a in y] for y in Y], []])); metas.append((case, [rank[a] for a in acts], [[Fr(v) for v in g["rewards"]] for g in got]))
-        elif all(float(y).is_integer() for y in Y):
+        elif lk != "frac" and all(float(y).is_integer() for y in Y):
             reqs.append((14, [1, [int(y) for y in Y], [0, 1, 7]])); metas.append((case, [], [[Fr(g["rfun"](a)) for a in (0, 1, 7)] for g in got]))
     for (case, eacts, erew), mo in zip(metas, ctx.get_model().batch(reqs)):
         macts, mrew = mo
@@ -158,12 +160,14 @@ def check_sources(ctx, n_cases):
                 exp_ctx = [[str(v) for j, v in enumerate(r) if j != lab] for r in feats]
                 exp_acts = sorted(set(labels)); cat = False
             else:
-                lines = ["@relation t"] + ["@attribute %s %s" % (nm, "{" + ",".join(classes) + "}" if j == lab else "numeric") for j, nm in enumerate(names)] + ["@data"] + [",".join(map(str, r)) for r in feats]
+                nom = rng.choice([j for j in range(ncol) if j != lab]) if rng.random() < 0.5 else None      # a nominal FEATURE, with missing cells here and there (and missing numeric cells)
+                cells = [[("?" if rng.random() < 0.3 else rng.choice(["a", "b"])) if j == nom else ("?" if j != lab and rng.random() < 0.1 else v) for j, v in enumerate(r)] for r in feats]
+                lines = ["@relation t"] + ["@attribute %s %s" % (nm, "{" + ",".join(classes) + "}" if j == lab else "{a,b}" if j == nom else "numeric") for j, nm in enumerate(names)] + ["@data"] + [",".join(map(str, r)) for r in cells]
                 src = ArffSource(ListSource(lines))
-                exp_ctx = [[float(v) for j, v in enumerate(r) if j != lab] for r in feats]
+                exp_ctx = [[(None if v == "?" else v if j == nom else float(v)) for j, v in enumerate(r) if j != lab] for r in cells]
                 exp_acts = list(classes); cat = True
             case = dict(format=fmt, lines=lines, label_col=names[lab] if by_name else lab, take=take)
-            env = make_env(rng, (src, names[lab] if by_name else lab, "c", take), case)
+            env = make_env(rng, (src, names[lab] if by_name else lab, "c", take), case, via="constructor" if fmt == "arff" and nom is not None else None)      # (Environments would finalise a nominal feature into one-hot columns of the context: C10)
         else:
             multi = fmt == "manik" or rng.random() < 0.3
             labels = [rng.sample(["1", "2", "3"], rng.randrange(1, 3 if multi else 2)) for _ in range(n)]
